@@ -69,6 +69,10 @@ package main
 // every argument expression and every call path. Concurrent evaluations of one call site
 // whose callee is given by an expression: c20_concur.go.
 //
+// Phase live (c20_r5live.go): the operand is read from a place holding a value of any kind
+// (Go arrays, structs, maps, channels ... included) and the place is stored to while the
+// operation is still under way; reference = the same program with id(place) in that position.
+//
 // c20PendingFix_* constants: input classes on which the unchanged tree violates the
 // statement (C20-genuine.md); they are generated only when the constant is false.
 
@@ -1680,14 +1684,17 @@ func init() {
 					"phase fixed: the difference classes seen on the pinned tree; phase typed: the type-/identity-revealing templates x every value x (typed location x binding hop: =, var, multi-assignment, parameter, 5th parameter, return, returned name, closure, for-in variable; Go result / interface{} field x var, parameter, 5th parameter, closure) (complete); phase pairs: arguments bound by spreading a list (f(l...), f(0, l...), under defer and go, into fixed-arity script functions) against the same arguments written out (f(l[0], l[1])), with callees that overwrite the list, keep a closure, assign their parameter or apply kind-sensitive operators (complete list); phase len1: EVERY template x value x atom (complete); "+
 					"templates param-*: a script callee stores into a field / element of its parameter (1..4 parameters, 5 parameters, variadic function, spread, function value given by an expression, module function, nested call, defer, go, host callback) and the caller reads the argument expression again; "+
 					"phases concur / concur-race: one call site whose callee is given by an expression (list element, map entry, member, struct field, typed slice element, pointer target, call result, Go result, parentheses, ternary, ??, two hops, module member) evaluated N times by each of 3-5 overlapping evaluations (goroutines started by `go` in one script; one parsed tree run on several VMs) whose callees are different closures obtained through different provenances - every call must return its own callee's result, as the call by name does (concur-race: same programs, fewer rounds, -race build); "+
+					"phase live (c20_r5live.go): %d sites (binary operators, in, index, slice, call arguments of script / Go / variadic / deferred calls, callee, list and map literals incl. the key, send value and channel, delete, switch subject, make sizes, multi-value return / assignment, the right side of element / key / member / field stores, switch case lists, Go parameters typed T / ...T, for-in subjects in the one- and two-variable form, and the bindings: =, var, multi-assignment, module member, comma-ok into a name / a module member, member, element, field, parameters, closure, explicit and implicit results (also with a deferred store), for-in variable, literals, Go argument, send, deferred argument) x %d operand kinds (scalars, named types, Go arrays [3]int64 / [2]string / [2]float64 / [2][2]int64, structs (one holding an array), typed slice, typed map, pointers, open / closed channel, Go function) x 12 places holding the operand (name, module member, []T element, field typed T, *T target, element of an array / slice field, untyped list element, map entry / member, map[string]T entry, interface{} field) x {the place is REPLACED by a sibling value, the value held there is MUTATED in place} while the operation is under way or right after the binding; reference in position: the same program with the operand id(place) and func(){ return place }(); variants place, (place), (true ? place : nil) (quick: place and one of the other two) (complete); plus the special families forin-var (the loop variable against a let-bound copy, pointer elements, 8 containers) and addr-hop; "+
 					"phase deep: quick = 8 PRNG chains of length 2..3 per (template,value), thorough = every chain of length 2 plus 80 PRNG chains of length 3. "+
-					"Each instantiation runs in a fresh environment with fresh operand objects. An evaluation is non-trivial when the reference or the variant succeeded; distinct = distinct (template, value, source).", nT, nV, nA, len(g.atoms)-nA),
+					"Each instantiation runs in a fresh environment with fresh operand objects. An evaluation is non-trivial when the reference or the variant succeeded; distinct = distinct (template, value, source).", nT, nV, nA, len(g.atoms)-nA, len(c20Live().sites), len(c20Live().kinds)),
 				Assumptions: []string{
 					"error texts are not compared (statement: same error-or-success), except for throw",
 					"pointers/channels/functions are compared by identity with the operand object and by their effects, never by printed address",
 					"excluded: `a, b = <index expr>` (also parenthesised), &$X of anything but a name, the value of $X++ / $X op= e, string/appending stores and struct-value field stores through non-assignable holes, in-place mutation of struct/array values held in addressable typed locations, non-type-keeping stores into typed places, the for-in loop variable of a pointer operand",
 					"whether a store into a field / element of a struct / array PARAMETER succeeds inside the callee depends on the addressability of the parameter's cell (not compared: caught inside the callee); compared is the caller's operand after the call",
 					"phases concur / concur-race decide nothing on timing: a wrong callee, an error or a race report is a fact of the run; overlapping evaluations that happen not to collide are silent",
+					"phase live assumes no evaluation order: the reference operand id(place) is evaluated at the same point of the same operation as the direct operand; not generated there: in-place stores into a map while it is iterated (Go leaves open whether the entry is visited), slicing a Go array (the result aliases an addressable array and copies another one: Go's distinction), arrays / structs as the container of an assignment target (addressability), compound assignments to the place",
+					"round-5 classes not generated while their c20PendingFix_* constant (c20_r5live.go) is true: container of an assignment target read from a slot (liveTargetContainer), write-back of &x given through a hop (addrHopWriteback), a Go array as the container of an index expression (liveArrayContainer), the receiver of a method call with arguments (liveMethodReceiver)",
 					"round-4 classes not generated while their c20PendingFix_* constant is true: live for-in subject, live defer / call callee read from a typed func slot, boxed result list of a multi-result callback, value of `place op= e` / `place++` for map / member places, parenthesised assignment targets",
 					"classes known to violate the statement on the unchanged tree are not generated while their c20PendingFix_* constant is true: addressable binding (&name, in-place mutation of a name bound from a typed location), live left operand / Go-call argument, implicit function result, slicing a non-addressable array, switch/in with a boxed pointer, values boxed in non-empty interface types, syntactic &name write-back",
 				},
@@ -1697,6 +1704,7 @@ func init() {
 					{Name: "typed", Cases: len(sensT) * nV, Chunk: 160, Exhaust: true, TimeoutS: 900},
 					{Name: "pairs", Cases: len(c20Pairs()), Chunk: 64, Exhaust: true, TimeoutS: 600},
 					{Name: "deep", Cases: nT * nV, Chunk: map[string]int{"quick": 160, "thorough": 40}[tier], TimeoutS: 1800},
+					{Name: "live", Cases: c20LiveCases(), Chunk: 160, Jobs: 4, MemMB: 3072, Exhaust: true, TimeoutS: 900},
 					{Name: "concur", Cases: c20ConcurCases(), Chunk: 2, TimeoutS: 900},
 					{Name: "concur-race", Race: true, Cases: c20ConcurCases(), Chunk: c20ConcurCases(), TimeoutS: 900},
 				},
@@ -1708,6 +1716,8 @@ func init() {
 				c20RunConcur(c, map[string]int{"quick": 30000, "thorough": 300000}[c.Tier])
 			case "concur-race":
 				c20RunConcur(c, map[string]int{"quick": 300, "thorough": 3000}[c.Tier])
+			case "live":
+				c20RunLive(c)
 			case "pairs":
 				c20RunPair(c, c20Pairs()[c.Index])
 			case "fixed":
